@@ -42,7 +42,7 @@ MANIFEST = {
 BUDGET = {"quick": (1500, 60), "thorough": (120000, 1200)}
 REQUIRED_PROBES = {"quick": ["op_write", "op_update", "op_plant", "op_write_masked_over_existing", "op_read_absent_masked", "op_on_alt_format"],
                    "thorough": ["op_write", "op_update", "op_plant", "op_delete", "op_write_masked_over_existing", "op_read_absent_masked", "op_fill", "op_buf_update", "neg_step_indexer", "op_nested_update", "op_held_read",
-                                "op_on_alt_format", "op_write_masked_over_existing_alt"]}
+                                "op_on_alt_format", "op_write_masked_over_existing_alt", "op_fill_index_arrays"]}
 CHUNK = 40
 
 MODES = ["F32", "RGBA", "I16", "F64", "RGB", "U8", "I32", "F16x3"]
@@ -406,7 +406,21 @@ def run_one(ch, env):
             elif xs == 3 and x0 + w < bw:
                 bx = slice(x0 - bw, x0 + w - bw)                            # the same columns, counted from the end
             before = mbuf.copy()
-            if op == "fill":
+            if op == "fill" and ch.draw(3, kind="fill_indexer_kind") == 2:
+                # fill also takes integer-array indexers (toasty's chunked samplers pass paired index arrays
+                # `iy[ok], ix[ok], biy[ok], bix[ok]`): scattered pixels instead of a rectangle
+                yy, xx = np.mgrid[0:h, 0:w]
+                ok = ((yy * 3 + xx + uid) % 4) != 0
+                if not ok.any():
+                    ok[0, 0] = True
+                iy, ix = (iy0 + yy)[ok], (ix0 + xx)[ok]
+                by, bx = (y0 + yy)[ok], (x0 + xx)[ok]
+                Image.from_array(src.copy()).fill_into_maskable_buffer(real, iy, ix, by, bx)
+                model_fill(mode, mbuf, src, iy, ix, by, bx)
+                probe("op_fill")
+                probe("op_fill_index_arrays")
+                by = slice(0, 0)        # (only used for the description below)
+            elif op == "fill":
                 Image.from_array(src.copy()).fill_into_maskable_buffer(real, iy, ix, by, bx)
                 model_fill(mode, mbuf, src, iy, ix, by, bx)
                 probe("op_fill")
